@@ -286,7 +286,7 @@ func TestVerifC11(t *testing.T) {
 		}
 	}
 	// Part 2: PRNG
-	totalR := c.Share(c.Pick(15000, 400000))
+	totalR := c.Share(c.Pick(60000, 400000))
 	const rb = 250
 	for i := 0; i < totalR; i += rb {
 		n := caseNo
@@ -332,7 +332,7 @@ func remoteFeeds(c *ev.Ctx, caseNo *int) {
 		return
 	}
 	defer s.Close()
-	total := c.Share(c.Pick(160, 3000))
+	total := c.Share(c.Pick(500, 3000))
 	for i := 0; i < total; i++ {
 		n := *caseNo
 		*caseNo++
